@@ -3,17 +3,24 @@ C = lambda n: "(*" + P + "Client)." + n
 SUB = {C("dial"): P + "vC28_dial", C("marshalProtoWithContext"): P + "vC28_marshal", P + "readProtoFrame": P + "vC28_readFrame",
        C("unmarshalProtoResponse"): P + "vC28_unmarshal", "(*" + P + "FramePool).Put": P + "vC28_framePut",
        "(*" + P + "vC28Conn).Write": P + "vC28_write"}
+R = "github.com/tochemey/goakt/v4/internal/remoteclient."
+RSUB = {"(*" + P + "FramePool).Get": R + "vC28p_get", "(*" + P + "FramePool).Put": R + "vC28p_put",
+        "(*" + P + "ProtoSerializer).MarshalBinaryTo": R + "vC28p_marshalTo", "(*" + R + "client).resolveSerializer": R + "vC28p_resolve",
+        "(*" + R + "client).NetClient": R + "vC28p_netClient", C("SendProto"): R + "vC28p_send"}
 CHECK = {
     "id": "C28",
-    "packages": ["./internal/net"],
-    "harness": ["internal/net/zz_verif_c28.go"],
+    "packages": ["./internal/net", "./internal/remoteclient"],
+    "harness": ["internal/net/zz_verif_c28.go", "internal/remoteclient/zz_verif_c28.go"],
     "entries": [
         {"fn": P + "vC28_single", "replay": "model-only"},
         {"fn": P + "vC28_batch", "replay": "model-only"},
         {"fn": P + "vC28_pool", "replay": "model-only", "opts": {"rounds": 3, "unwind_mode": "assume", "feasibility": False}, "cover_optional": ("reused",)},
+        # the remoting client above the connection pool: RemoteAsk's pooled payload frame must stay untouched until the request is written
+        {"fn": R + "vC28_payload", "replay": "model-only", "opts": {"substitute": RSUB, "rounds": 3, "unwind_mode": "assume", "feasibility": False}, "cover_optional": ("both-frames-returned",)},
     ],
     "opts": {"unwind": 5, "substitute": SUB},
     "stop": list(SUB.keys()),
     "explanation": "net.Client.Get/Put/Discard/SendProto/SendProtoWithMetadata/SendBatchProto executed symbolically with a ghost connection (per-connection FIFO of unread responses; the fake server answers request id i with response id i) and a symbolic failure at every dial/marshal/write/read/unmarshal step; dialing, framing and the socket are substituted. Plus Get/Put under solver-chosen interleavings of two callers.",
     "bounds": {"requests": "2 consecutive single requests; one batch of 2", "connections": "<= 3", "failures": "any subset of I/O steps"},
 }
+CHECK["explanation"] += " vC28_payload: two concurrent client.RemoteAsk calls (real serializePayload, the deferred payloadPool.Put, envelope construction, enrichContext) with the frame pool modelled as 'any returned frame may be handed out again', the protobuf framer reduced to a one-byte tag and SendProto substituted by the wire: the request written for an ask must carry that ask's own payload."
